@@ -78,7 +78,9 @@ func (g *gen) stat(s string) { g.stats[s]++ }
 
 var strParts = []Str{{"a", "a"}, {"b", "b"}, {"xyz", "xyz"}, {"é", "é"}, {"😀", "😀"}, {`\"`, `"`}, {`\\`, `\`}, {`\/`, "/"}, {`\n`, "\n"},
 	{`\t`, "\t"}, {`\r`, "\r"}, {`\b`, "\b"}, {`\f`, "\f"}, {`A`, "A"}, {`é`, "é"}, {" ", " "}, {"/", "/"}, {"{", "{"}, {"]", "]"},
-	{":", ":"}, {",", ","}, {"@", "@"}, {".", "."}, {"e", "e"}, {"1", "1"}, {"\\u002e", "."}, {"|", "|"}, {"//", "//"}, {"#", "#"}, {"0", "0"}, {"-", "-"}, {"*/", "*/"}, {"'", "'"}}
+	{":", ":"}, {",", ","}, {"@", "@"}, {".", "."}, {"e", "e"}, {"1", "1"}, {"\\u002e", "."}, {"|", "|"}, {"//", "//"}, {"#", "#"}, {"0", "0"}, {"-", "-"}, {"*/", "*/"}, {"'", "'"},
+	// white space that is not an ASCII blank, raw and escaped: inside the quotes it is content (V1), also first / last
+	{"\u00a0", "\u00a0"}, {"\u3000", "\u3000"}, {"\u2003", "\u2003"}, {"\ufeff", "\ufeff"}, {`\u00a0`, "\u00a0"}, {`\u000b`, "\v"}, {`\u0085`, "\u0085"}, {`\u2009`, "\u2009"}, {`\u0020`, " "}}
 
 // Strings whose CONTENT looks like another JSON kind (or like nothing): a quoted token is a string whatever it holds.
 var lookalikes = []Str{{`"a.b"`, "a.b"}, {`"1.5"`, "1.5"}, {`"1"`, "1"}, {`"-0"`, "-0"}, {`"1e5"`, "1e5"}, {`"true"`, "true"}, {`"false"`, "false"},
@@ -190,20 +192,46 @@ var textWords = []string{"note", "the", "id", "of", "a", "user", "-", "--", "x1"
 	"#", "##", "###", "#12", "a#b", "c#", "ü#", "# w", "/*", "*/", "/* z */", "// y", "- x", "@", "@t|@u", "@t | @u", "[", "]", ",", ":", "\"", "\\", "\\n",
 	"日本", "😀", "{enum:", "[1,", "1", "true", "null", "{}", "[]", "\"a\": 1"}
 
+// edgeSpaces / edgePunct (V11b): a note (and an enum item comment) is arbitrary text, so its FIRST and LAST characters
+// are drawn also from white space that is not an ASCII blank — no-break / ideographic / en / em / thin / hair space,
+// NEL, BOM, zero-width space, line / paragraph separator, vertical tab, form feed, a control character, the Latin-1
+// bytes of NBSP and NEL standing alone — and from punctuation. The scanners delimit a text by ASCII blanks only.
+var edgeSpaces = []string{"\u00a0", "\u3000", "\u2000", "\u2002", "\u2003", "\u2009", "\u200a", "\u0085", "\ufeff", "\v", "\f",
+	"\u2028", "\u2029", "\u1680", "\u202f", "\u205f", "\u200b", "\xa0", "\x85", "\x1f"}
+var edgePunct = []string{".", ",", ";", ":", "!", "?", "-", "–", "—", "…", "(", ")", "*", "'", "\"", "`", "~", "_", "=", "+", "<", ">", "/", "\\",
+	"|", "&", "%", "$", "@", "[", "]", "{", "}", "«", "»", "。", "、", "·"}
+
+func (g *gen) edge() string {
+	if g.r.Intn(3) != 0 {
+		g.stat("text_edge_nonascii_space")
+		return edgeSpaces[g.r.Intn(len(edgeSpaces))]
+	}
+	g.stat("text_edge_punctuation")
+	return edgePunct[g.r.Intn(len(edgePunct))]
+}
+
 // text: 1..4 pool words. sepNL > 0: each gap between two words is a line break (+ indentation) with probability
-// 1/sepNL, a blank otherwise (multi-line notes only; the printer turns "\n" into its own line end).
+// 1/sepNL, a blank otherwise (multi-line notes only; the printer turns "\n" into its own line end). One text in
+// three starts, one in three ends with an edge character (directly attached, or as a word of its own next to an
+// ASCII blank); a gap may be a non-ASCII space as well.
 func (g *gen) text(sepNL int) string {
 	n := 1 + g.r.Intn(4)
 	var sb strings.Builder
+	if g.r.Intn(3) == 0 {
+		sb.WriteString(g.edge() + []string{"", "", " ", "\t"}[g.r.Intn(4)])
+	}
 	for i := 0; i < n; i++ {
 		if i > 0 {
 			if sepNL > 0 && g.r.Intn(sepNL) == 0 {
 				sb.WriteString("\n" + []string{"", " ", "  ", "\t"}[g.r.Intn(4)])
 			} else {
-				sb.WriteString([]string{" ", " ", "  ", "\t"}[g.r.Intn(4)])
+				sb.WriteString([]string{" ", " ", "  ", "\t", " ", " ", "  ", "\t", "\u00a0", "\u3000 "}[g.r.Intn(10)])
 			}
 		}
 		sb.WriteString(textWords[g.r.Intn(len(textWords))])
+	}
+	if g.r.Intn(3) == 0 {
+		sb.WriteString([]string{"", "", " ", "\t"}[g.r.Intn(4)] + g.edge())
 	}
 	return sb.String()
 }
@@ -230,8 +258,14 @@ func cutAtHash(s string) string {
 	if i := strings.IndexByte(s, '#'); i >= 0 {
 		s = s[:i]
 	}
-	return strings.Trim(s, " \t\r\n")
+	return trimBlanks(s)
 }
+
+// trimBlanks: V11 — the only characters that do not belong to a note at its two ends are the ASCII blanks the
+// scanner skips when it delimits the text: space, tab and the line-break bytes CR, LF. Any other white space
+// (U+00A0, U+3000, U+2000–U+200A, U+0085, U+FEFF, \v, \f …) and every punctuation character is note text
+// (calibrated on the unchanged tree: `1 // {min: 0} -\u00a0x\u3000 ` has the note "\u00a0x\u3000").
+func trimBlanks(s string) string { return strings.Trim(s, " \t\r\n") }
 
 // common rules that fit almost every mode
 func (g *gen) common(rs []*Rule, inObj bool, allowConst bool) []*Rule {
@@ -474,6 +508,19 @@ func (g *gen) orRule(n *Node, v int) *Rule {
 	return &Rule{Name: "or", Form: "or", Alts: alts}
 }
 
+// plainTypes: the schema type names that need no companion rule.
+var plainTypes = []string{"string", "integer", "float", "boolean", "null", "object", "array", "any", "email", "uri", "uuid", "date", "datetime"}
+
+// plainOr: a manual `or` whose 2..4 alternatives are bare plain type names (one may be written twice, V15).
+func (g *gen) plainOr() *Rule {
+	var alts []Alt
+	for i := 2 + g.r.Intn(3); i > 0; i-- {
+		alts = append(alts, Alt{Name: plainTypes[g.r.Intn(len(plainTypes))]})
+	}
+	g.stat("rule_or")
+	return &Rule{Name: "or", Form: "or", Alts: alts}
+}
+
 // scalarNode generates a literal with a coherent rule set.
 func (g *gen) scalarNode(inObj bool) *Node {
 	r := g.r
@@ -576,7 +623,8 @@ func (g *gen) scalarNode(inObj bool) *Node {
 }
 
 var plainKeys = []Str{{`"a"`, "a"}, {`"b"`, "b"}, {`"c"`, "c"}, {`"d"`, "d"}, {`"id"`, "id"}, {`"key one"`, "key one"}, {`"é"`, "é"},
-	{`"k\"q"`, `k"q`}, {`"n\n"`, "n\n"}, {`"A"`, "A"}, {`"@x"`, "@x"}, {`"a/b"`, "a/b"}, {`"\\"`, `\`}, {`"0"`, "0"}, {`"type"`, "type"}, {`"😀"`, "😀"}}
+	{`"k\"q"`, `k"q`}, {`"n\n"`, "n\n"}, {`"A"`, "A"}, {`"@x"`, "@x"}, {`"a/b"`, "a/b"}, {`"\\"`, `\`}, {`"0"`, "0"}, {`"type"`, "type"}, {`"😀"`, "😀"},
+	{"\"\u00a0k\u3000\"", "\u00a0k\u3000"}, {`"\u00a0e\u000b"`, "\u00a0e\v"}, {`" s "`, " s "}}
 
 var apValues = []Lit{blit(true), blit(false), slit("any"), slit("string"), slit("integer"), slit("float"), slit("boolean"), slit("null"),
 	slit("object"), slit("array"), slit("email"), slit("uri"), slit("uuid"), slit("date"), slit("datetime"), slit("@ti"), slit("@to"), slit("@ts"), slit("@ta")}
@@ -707,7 +755,24 @@ func (g *gen) node(depth int, inObj bool) *Node {
 			}
 		}
 		n.Sep = []string{" | ", "|", "  |  ", " |", "| ", "\t|\t"}[r.Intn(6)]
-		n.Rules = g.shuffle(g.common(nil, inObj, false))
+		// Hand-written rules next to a shortcut (V16). What the unchanged tree admits there: `optional`, `nullable`
+		// on both forms; on `@t` a manual `or` over PLAIN type names (a user type name → 1108, a rule-set → 1102,
+		// "mixed" / "enum" / "decimal" → 1114 / 1113 / 1112), alone or with a manual `type: "mixed"` (which alone is
+		// 1114); on `@t | @u` a manual `type: "mixed"` (a manual `or` there is a duplicate, 501).
+		var rs []*Rule
+		switch {
+		case len(n.Names) == 1 && r.Intn(3) == 0:
+			rs = append(rs, g.plainOr())
+			g.stat("ref_single_with_manual_or")
+			if r.Intn(3) == 0 {
+				rs = append(rs, lr("type", slit("mixed")))
+				g.stat("ref_single_with_manual_or_and_type_mixed")
+			}
+		case len(n.Names) > 1 && r.Intn(3) == 0:
+			rs = append(rs, lr("type", slit("mixed")))
+			g.stat("ref_or_shortcut_with_manual_type_mixed")
+		}
+		n.Rules = g.shuffle(g.common(rs, inObj, false))
 	}
 	if r.Intn(4) == 0 {
 		n.Note = "?" // replaced by the printer's choice of inline / multi-line text
@@ -845,7 +910,7 @@ func (p *printer) annotation(n *Node, g *gen) string {
 		if multi {
 			// `*/` cannot be written inside a /* */ text; everything else, `#` included, is ordinary text (V11)
 			src = strings.ReplaceAll(strings.ReplaceAll(src, "*/", "* /"), "\n", p.nl)
-			n.Note = src
+			n.Note = trimBlanks(src)
 			if strings.Contains(src, "#") {
 				g.stat("note_multiline_with_hash")
 			}
@@ -907,6 +972,8 @@ func (p *printer) value(n *Node, g *gen, indent, lead, comma string) {
 		}
 		w(indent + close + p.sp() + comma + p.sp() + p.nl)
 	case "ref":
+		// any run of blanks / tabs may follow the name, also when the node carries a manual `or` (the loader used to
+		// build the `or` alternatives from the untrimmed shortcut lexeme and failed on `@t  // {or: […]}`: F-36, fixed)
 		w(lead + strings.Join(n.Names, n.Sep) + p.sp() + comma + ann + p.nl)
 	default:
 		w(lead + n.Val.Raw + p.sp() + comma + ann + p.nl)
@@ -991,6 +1058,24 @@ func expNode(n *Node) XNode {
 	switch n.Kind {
 	case "ref":
 		out.Value = strings.Join(n.Names, n.Sep)
+		if len(n.Names) == 1 && has["or"] != nil {
+			// V16: a manual `or` next to `@t` widens the node to "mixed". The rule list still opens with ONE `type`
+			// rule, now {string, "mixed"}: it is the author's when `type: "mixed"` is written (before or after the
+			// `or`, manual), otherwise it stands for the one synthesised from the shortcut (generated). The other
+			// rules follow as written, all manual; the shortcut name stays in Value only.
+			out.Type = "mixed"
+			src := "generated"
+			if has["type"] != nil {
+				src = "manual"
+			}
+			out.Rules = append(out.Rules, XRule{Name: "type", Tok: "string", Value: "mixed", Src: src})
+			for _, x := range n.Rules {
+				if x.Name != "type" {
+					out.Rules = append(out.Rules, expRule(x))
+				}
+			}
+			return out
+		}
 		if len(n.Names) == 1 {
 			out.Type = n.Names[0]
 			out.Rules = append(out.Rules, XRule{Name: "type", Tok: "reference", Value: n.Names[0], Src: "generated"})
